@@ -106,6 +106,14 @@ def gen_cases(chk):
                 kind = rng.choice((0, 1, 2, 3, 4, 5))
                 data = "g:%d:%x:%x:%s:%s" % (kind, rng.getrandbits(24), n, dbits(scale), dbits(off))
                 orc.append("rt %x %s %s %x %s %s 0 %s %s" % (ty, tup5(t), tup5(t), mode, dbits(absb), dbits(rel), cfg, data))
+    # bounds and ranges beyond what a float can carry (double data, the combined modes use min/max of two doubles)
+    for t in ((500,), (24, 40)):
+        n = 1
+        for v in t:
+            n *= v
+        for mode in (0, 1, 2, 3):
+            orc.append("rt 1 %s %s %x %s %s 0 szMode=SZ_BEST_SPEED g:%d:%x:%x:%s:0" % (tup5(t), tup5(t), mode, dbits(1e42), dbits(1e-3), rng.choice((0, 1, 2)), rng.getrandbits(24), n, dbits(1e45)))
+            orc.append("rt 1 %s %s %x %s %s 0 szMode=SZ_BEST_SPEED g:%d:%x:%x:%s:0" % (tup5(t), tup5(t), mode, dbits(1e-42), dbits(1e-3), rng.choice((0, 1, 2)), rng.getrandbits(24), n, dbits(1e-39)))
     return k1, orc
 
 
